@@ -111,6 +111,34 @@ def served_over_http(ctx):
     return n
 
 
+def startup_messages(ctx):
+    """what the node prints when its configuration is refused (cmd/main.go prints the LoadConfig error): every configured value
+    in seven malformed shapes, from the environment and from flags; the text must not contain the secrets"""
+    exe = L.build_harness(ctx, "httphandlers")
+    if not exe:
+        return 0
+    rc, out = L.run_harness(ctx, exe, "TestVerifC18Load$", env={}, timeout=300)
+    if rc != 0:
+        ctx.tie_failures.append("start-up message harness run failed (rc=%d): %s" % (rc, out[-300:]))
+        return 0
+    n, done = 0, set()
+    for h, lines in L.parse_cases("%s/c18load.impl.txt" % ctx.out):
+        for i, l in enumerate(lines):
+            if l.startswith("< refused") or l.startswith("< accepted"):
+                n += 1
+            if l.startswith("< refused leaks=") and not l.endswith("leaks=none"):
+                op = L.last_op_before(lines, i)
+                f = op.split()
+                sig = "c18:startup-error-prints-" + l.split("=", 1)[1].split(",")[0]
+                if sig in done:
+                    continue
+                done.add(sig)
+                L.violation(ctx, sig, "a configuration refused at start-up (%s given %s, from %s) is reported with an error text that contains %s" % (f[3], f[4], f[2], l.split("=", 1)[1]),
+                            {"clause": "secrets never appear in what the node prints about its configuration", "case": h, "ops": [op],
+                             "how_to_replay": "bin/check C18 --tier quick (the list of malformed configurations is fixed; the op names the one)"})
+    return n
+
+
 def run(ctx):
     ctx.trusted_base += [
         "tools/gofacts: GetSanitized regenerated as straight-line assignments (struct-level copies expanded to leaf fields; anything else makes the translator fail), the Config field list, where the whole configuration value flows in cmd/main.go, the HTTP handler's Sanitizable interface",
@@ -128,6 +156,7 @@ def run(ctx):
     cases += part(ctx, "hr", "TestVerifC18Decrypt$", "c18dec.impl.txt", {"VERIF_N": 12 if ctx.tier == "quick" else 40}, "encrypted destination")
     bad_payload_events = fail_closed_in_controller(ctx)
     http_requests = served_over_http(ctx)
+    ctx.coverage["refused_configurations_checked"] = startup_messages(ctx)
     L.buyer_world(ctx, "C18")
     kinds = {}
     for h, lines in cases:
